@@ -130,7 +130,10 @@ def run(ctx):
     succ_sw = [(sw, eq_t) for (sw, eq_t, ne_t) in eqs if renames and rba.edge_dominates((sw, eq_t), renames[0])]
     if ctx.ob("R1.4", "%s|success-region" % R.key, len(succ_sw) == 1, where=R.span, detail="the `rv == EXIT_SUCCESS` region containing the rename located"):
         sw, eq_t = succ_sw[0]
-        final = [(s2, ne2) for (s2, ne2, eq2, x) in common.cmp_const_switches(R, 0) if s2 != sw and rba.dominates(sw, s2)]
+        # the final status test: the re-test of `rv` after the success region (a further test of `rv` *inside* the region,
+        # e.g. `else if rv == EXIT_SUCCESS` guarding the removal of the target, is not it)
+        final = [(s2, ne2) for (s2, ne2, eq2, x) in common.cmp_const_switches(R, 0)
+                 if s2 != sw and rba.dominates(sw, s2) and not rba.edge_dominates((sw, eq_t), s2)]
         stamps = set(rba.calls(r"state::File::update_stamp")) | {bb for bb, _, _ in field_writes(R, r"state::File\.stamp")}
         goal = [s2 for s2, _ in final] or rba.returns()
         common.mpt(ctx, "R1.4", "%s|success=>fresh-stamp" % R.key, R, [eq_t], goal, stamps,
